@@ -109,13 +109,46 @@ def _real_graphs():
     return n, fails, samples
 
 
+def _def_use(tier, seed):
+    """the dependences that matter in the end are those of the emitted statements: every name a statement reads is
+    bound by a statement placed before it on every path (definite-assignment analysis of props/C06.py), over a family
+    built to stress placement: flattening with occupancy splits underneath, discordant accesses, dynamic partitioning
+    below them, index math next to a second input on the same rank - every loop order that keeps levels outermost-first"""
+    import glob
+    from pyvc.extract import REPO
+    from props import hoist_family, C06
+    from teaal.parse import Einsum, Mapping
+    from teaal.trans.hifiber import HiFiber
+    fam = hoist_family.specs(tier, seed)
+    for path in sorted(glob.glob(REPO + "/tests/integration/*.yaml")):
+        fam.append((path.rsplit("/", 1)[1], open(path).read()))
+    n, fails = 0, []
+    for name, y in fam:
+        try:
+            text = str(HiFiber(Einsum.from_str(y), Mapping.from_str(y)))
+            user, _ = C06.user_names(y)
+        except Exception:      # noqa
+            continue
+        n += 1
+        probs = C06.closed(text, user)
+        if probs:
+            fails.append({"name": "bounded/statement-order-respects-def-use",
+                          "detail": "%s: %s" % (name[:140], probs[0]),
+                          "witness": {"spec": name, "yaml": y[:1500], "problems": probs[:4]}})
+    return n, fails[:6]
+
+
 def bounded(uni, tier, seed):
     n, fails, samples = _real_graphs()
+    n2, fails2 = _def_use(tier, seed)
+    n, fails = n + n2, fails + fails2
     ev, f2, per = (0, [], {})
     if tier == "thorough":
         ev, f2, per = common.native_sweep(uni, _sidecars(), ["FlowGraph.__hoist"], limit=400)
     return {"evaluations": n + ev, "distinct_nontrivial": n + ev, "failures": fails + f2,
             "rule": "every Einsum of every tests/integration/*.yaml: real FlowGraph with and without hoisting - order "
-                    "topological w.r.t. the real graph, loop brackets nested in loop order, same node multiset; "
+                    "topological w.r.t. the real graph, loop brackets nested in loop order, same node multiset; the emitted "
+                    "statements of the placement family (props/hoist_family.py, every level-respecting loop order) "
+                    "and of the integration specs read only names bound earlier on every path; "
                     "thorough adds random small DAGs fed to the real __hoist under the sidecar contract (bounded)",
             "samples": samples}
